@@ -12,6 +12,7 @@ CONSTANTS
   Valences = {"neg"}
   Scores = {"none"}
   Unscoreds = {FALSE}
+  Msgs = {"text"}
   SuppU <- SuppBasic
   MaxFb = 2
   MaxSupp = 2
